@@ -102,7 +102,7 @@ func init() {
 	register(&Prop{
 		ID:         "C05",
 		Title:      "Conditional writes are decided on the target item only, atomically",
-		Decided:    "(R1) every evaluation of a write condition (a call of the core function that builds a MatchInput of kind 'conditional', with a condition set) receives as item the map stored under – or the empty map for – the key derived with the table's own GetKey from the request in the same function; (R2) no QueryInput that reaches the whole-table iteration (SearchData) ever carries a write condition, and no client write method evaluates a condition by iterating the table; (R3) in Put/Update/Delete the condition verdict is obtained before the first state write and the failing edge returns without any write (typestate, shared with C08.R1), the documented interpreter panic can only be raised before any write; (R4) the failing edge yields the code ConditionalCheckFailedException, the v2 adapter maps that code to the SDK type and carries Item; the item attached on request is the stored item; (R5) all three write operations (PutItem, UpdateItem, DeleteItem) hand their condition to core; (R7) the target item is the one stored under the key of the request: the key derivation folds no two key values into one (= C01.R8), otherwise the condition is decided on a bystander; (R8) the values a condition compares the target item with are the ones the request supplied: the request's values are loaded after the item and win (= C06.R10); (R9) decision table of the evaluator: over presence and verdict of key condition, filter and write condition (and every other test the function makes, tried both ways) the verdict is the write condition's own whenever one is present; (R10) no conversion on the request path retains the address of a loop variable (= C18.R9): every placeholder keeps its own name and value.",
+		Decided:    "(R1) every evaluation of a write condition (a call of the core function that builds a MatchInput of kind 'conditional', with a condition set) receives as item the map stored under – or the empty map for – the key derived with the table's own GetKey from the request in the same function; (R2) no QueryInput that reaches the whole-table iteration (SearchData) ever carries a write condition, and no client write method evaluates a condition by iterating the table; (R3) in Put/Update/Delete the condition verdict is obtained before the first state write and the failing edge returns without any write (typestate, shared with C08.R1), the documented interpreter panic can only be raised before any write; (R4) the failing edge yields the code ConditionalCheckFailedException, the v2 adapter maps that code to the SDK type and carries Item; the item attached on request is the stored item; (R5) all three write operations (PutItem, UpdateItem, DeleteItem) hand their condition to core; (R7) the target item is the one stored under the key of the request: the key derivation folds no two key values into one (= C01.R8), otherwise the condition is decided on a bystander; (R8) the values a condition compares the target item with are the ones the request supplied: the request's values are loaded after the item and win (= C06.R10); (R9) decision table of the evaluator: over presence and verdict of key condition, filter and write condition (and every other test the function makes, tried both ways) the verdict is the write condition's own whenever one is present; (R10) no conversion on the request path retains the address of a loop variable (= C18.R9): every placeholder keeps its own name and value; (R11) attribute names are looked up literally before being split as paths (= C06.R17).",
 		NotDecided: "the truth value of the condition itself (C06); equality of table state before/after a refused write is implied by 'no write before the verdict', not computed.",
 		Rules: []RuleDef{
 			{ID: "R1", Desc: "the condition sees Data[GetKey(request)] or the empty item (T-FLOW/SSA origin)", Run: func(e *Engine) {
@@ -457,6 +457,7 @@ func init() {
 			{ID: "R8", Desc: "the condition compares against the values the request supplied: placeholders are not shadowed by stored attributes (= C06.R10)", Run: aliasRule("R8", c06R10, nil)},
 			{ID: "R9", Desc: "the engine's verdict for a request is exactly the combination of the interpreter's verdicts for the expressions present – no shortcut answers for an expression without evaluating it (decision table)", Run: c05R9},
 			{ID: "R10", Desc: "the names and values a condition refers to reach the engine one by one: no conversion keeps the address of a loop-carried variable (all placeholders would resolve to the last one) (= C18.R9)", Run: aliasRule("R10", c18R9, nil)},
+			{ID: "R11", Desc: "the condition reads the target's attribute under its resolved name, whatever characters the name contains (= C06.R17)", Run: aliasRule("R11", c06R17, nil)},
 		},
 	})
 }
